@@ -57,24 +57,25 @@ GlobId == 1   MathId == 2   StringId == 3   TableId == 4   DebugId == 5   LoudId
 LibIds == {MathId, StringId, TableId, DebugId}
 
 \* ================================================================ environments
-RECURSIVE FindName(_, _, _), LookupLoc(_, _, _), VarArgs(_, _)
-FindName(ns, x, i) == IF i = 0 THEN 0 ELSE IF ns[i] = x THEN i ELSE FindName(ns, x, i - 1)
+\* A persistent linked environment: every declaration is a new immutable node [par, x, l], so a
+\* closure that captured env id e never sees later declarations. Function scopes are marker
+\* nodes (x = "", fn = TRUE) carrying the varargs.
+RECURSIVE LookupLoc(_, _, _), VarArgs(_, _)
 LookupLoc(envs, e, x) == IF e = 0 THEN 0
-                         ELSE LET i == FindName(envs[e].ns, x, Len(envs[e].ns)) IN
-                              IF i # 0 THEN envs[e].ls[i] ELSE LookupLoc(envs, envs[e].par, x)
+                         ELSE IF envs[e].x = x THEN envs[e].l ELSE LookupLoc(envs, envs[e].par, x)
 VarArgs(envs, e) == IF e = 0 THEN <<>> ELSE IF envs[e].fn THEN envs[e].va ELSE VarArgs(envs, envs[e].par)
-Scope(par, isfn, va) == [par |-> par, ns |-> <<>>, ls |-> <<>>, fn |-> isfn, va |-> va]
-NewScopeIn(m, par, isfn, va) ==
-  [m EXCEPT !.envs = Append(m.envs, Scope(par, isfn, va)), !.env = Len(m.envs) + 1]
-NewScope(m) == NewScopeIn(m, m.env, FALSE, <<>>)
+Marker(par, va) == [par |-> par, x |-> "", l |-> 0, fn |-> TRUE, va |-> va]
+NewScopeIn(m, par, va) ==
+  [m EXCEPT !.envs = Append(m.envs, Marker(par, va)), !.env = Len(m.envs) + 1]
 Declare(m, x, v) ==
   [m EXCEPT !.store = Append(m.store, v),
-            !.envs[m.env].ns = Append(@, x),
-            !.envs[m.env].ls = Append(@, Len(m.store) + 1)]
+            !.envs = Append(m.envs, [par |-> m.env, x |-> x, l |-> Len(m.store) + 1, fn |-> FALSE, va |-> <<>>]),
+            !.env = Len(m.envs) + 1]
 RECURSIVE DeclareAll(_, _, _, _)
 DeclareAll(m, names, vals, i) ==
   IF i > Len(names) THEN m
   ELSE DeclareAll(Declare(m, names[i], Nth(vals, i)), names, vals, i + 1)
+EnvMark(e) == Val("env", e, 0, "")
 
 \* ================================================================ tables (association lists in insertion order)
 \* a nil value is a tombstone: the key stays (stable positions), every reader skips it
@@ -86,6 +87,12 @@ HasKeyT(t, k0) == KeyIndex(t.ks, NormKey(k0), 1) # 0
 RawSetT(t, k0, v) == LET k == NormKey(k0) IN LET i == KeyIndex(t.ks, k, 1) IN
                      IF i = 0 THEN (IF v.t = "nil" THEN t ELSE [t EXCEPT !.ks = Append(@, k), !.vs = Append(@, v)])
                      ELSE [t EXCEPT !.vs[i] = v]
+\* in the global table and the library tables a nil assignment to an absent key leaves a tombstone:
+\* it hides the built-in default (type = nil makes `type` nil)
+RawSetH(m, tid, k0, v) ==
+  LET t == m.heap[tid] IN LET k == NormKey(k0) IN
+  IF tid <= 5 /\ v.t = "nil" /\ KeyIndex(t.ks, k, 1) = 0 THEN [t EXCEPT !.ks = Append(@, k), !.vs = Append(@, v)]
+  ELSE RawSetT(t, k, v)
 NewTable(m) == [m EXCEPT !.heap = Append(m.heap, EmptyTable)]
 RECURSIVE LiveCount(_, _)
 LiveCount(vs, i) == IF i = 0 THEN 0 ELSE (IF vs[i].t = "nil" THEN 0 ELSE 1) + LiveCount(vs, i - 1)
@@ -198,11 +205,11 @@ DefaultEnv == [assert |-> "real", profile |-> "real", gname |-> "", gval |-> Nil
 Init(P, env) ==
   [ ctl |-> Ctl("N", 0, <<>>),                                   \* the "blk" frame below starts the root block
     env |-> 2,
-    envs |-> << Scope(0, TRUE, <<>>), Scope(1, TRUE, <<>>) >>,     \* 1 = ROOT scope (never holds names), 2 = main chunk
+    envs |-> << Marker(0, <<>>), Marker(1, <<>>) >>,               \* 1 = ROOT scope (never holds names), 2 = main chunk
     store |-> <<>>,
     heap |-> << IF env.gset THEN RawSetT(EmptyTable, Str(env.gname), env.gval) ELSE EmptyTable,
                 MathLib, StringLib, TableLib, DebugLib, LoudTable >>,
-    clos |-> <<>>, kont |-> << Frame("blk", P.root, 0, <<>>, 2) >>,
+    clos |-> <<>>, kont |-> << Frame("blk", P.root, 0, <<EnvMark(2)>>, 2) >>,
     loaded |-> <<>>,
     cfg |-> [assert |-> env.assert, profile |-> env.profile],
     log |-> <<>>, ret |-> <<>>, st |-> "run", why |-> "", steps |-> 0, meta |-> 0 ]
@@ -238,13 +245,14 @@ ArithOps == {"+", "-", "*", "/", "%", "^", "//"}
 RECURSIVE FindReq(_, _, _), FindLoaded(_, _, _)
 FindReq(req, s, i) == IF i > Len(req) THEN 0 ELSE IF req[i].s = s THEN i ELSE FindReq(req, s, i + 1)
 FindLoaded(ld, s, i) == IF i > Len(ld) THEN 0 ELSE IF ld[i].s = s THEN i ELSE FindLoaded(ld, s, i + 1)
-NeedsScope(P, b) == \E i \in 1..Len(Node(P, b).l) : Node(P, Node(P, b).l[i]).k \in {"local", "localfn"}
-\* start executing the statements of block b; restore env `renv` when the block is left
+\* start executing the statements of block b; restore env `renv` when the block is left (-1: keep the
+\* block's final environment, used by `repeat` whose condition sees the body's locals). The frame
+\* records in vs the block-level environment reached so far (needed by `continue` inside `repeat`).
 EnterBlock(P, m, b, renv) ==
   LET l == Node(P, b).l IN
-  IF l = <<>> THEN Go([m EXCEPT !.env = renv], "N", 0, <<>>)
-  ELSE Go(PushK(m, Frame("blk", b, 1, <<>>, renv)), "X", l[1], <<>>)
-ExecBlock(P, m, b) == IF NeedsScope(P, b) THEN EnterBlock(P, NewScope(m), b, m.env) ELSE EnterBlock(P, m, b, m.env)
+  IF l = <<>> THEN Go(IF renv = -1 THEN m ELSE [m EXCEPT !.env = renv], "N", 0, <<>>)
+  ELSE Go(PushK(m, Frame("blk", b, 1, <<EnvMark(m.env)>>, renv)), "X", l[1], <<>>)
+ExecBlock(P, m, b) == EnterBlock(P, m, b, m.env)
 
 \* ---- string.format
 RECURSIVE FmtGo(_, _, _, _, _)
@@ -340,7 +348,7 @@ CallBi(P, m, name, args) ==
     [] name = "rawset" ->
          IF na < 3 \/ a1.t # "tab" THEN Err(m, "bad argument to rawset")
          ELSE IF a2.t = "nil" \/ IsNaNV(a2) THEN Err(m, "table index is nil or NaN")
-         ELSE Ret1([m EXCEPT !.heap[a1.hi] = RawSetT(@, a2, a3)], a1)
+         ELSE Ret1([m EXCEPT !.heap[a1.hi] = RawSetH(m, a1.hi, a2, a3)], a1)
     [] name = "rawequal" -> IF na < 2 THEN Err(m, "bad argument to rawequal") ELSE Ret1(m, Bool(RawEq(a1, a2)))
     [] name = "rawlen" -> Unspec(m, "rawlen does not exist in Lua 5.1")
     [] name = "select" ->
@@ -351,7 +359,7 @@ CallBi(P, m, name, args) ==
               ELSE LET n == IntOf(a1) IN
                    IF n < 0 THEN Unspec(m, "select with a negative index")
                    ELSE IF n = 0 THEN Err(m, "bad argument #1 to select (index out of range)")
-                   ELSE RetV(m, IF n + 1 > na THEN <<>> ELSE SubSeq(args, n + 1, na))
+                   ELSE RetV(m, IF n >= na THEN <<>> ELSE SubSeq(args, n + 1, na))
          ELSE IF a1.t = "str" /\ ToNum(a1)[1] # "no" THEN Unspec(m, "select with a numeric string")
          ELSE Err(m, "bad argument #1 to select")
     [] name = "type" -> IF na < 1 THEN Err(m, "bad argument to type") ELSE Ret1(m, Str(TypeName(a1)))
@@ -372,6 +380,7 @@ CallBi(P, m, name, args) ==
     [] name = "ipairs_iter" ->
          IF a1.t # "tab" \/ ~IsIntV(a2) THEN Err(m, "bad argument to the ipairs iterator")
          ELSE IF m.heap[a1.hi].mt # 0 THEN Unspec(m, "ipairs of a table with a metatable")
+         ELSE IF IntOf(a2) < 0 \/ IntOf(a2) > 1000000 THEN Unspec(m, "ipairs iterator with a huge or negative index")
          ELSE LET i == IntOf(a2) + 1 IN LET v == RawGetT(m.heap[a1.hi], NumI(i)) IN
               IF v.t = "nil" THEN RetV(m, <<>>) ELSE RetV(m, <<NumI(i), v>>)
     [] name = "next" ->
@@ -395,7 +404,8 @@ CallBi(P, m, name, args) ==
                         (IF ToNum(lo)[1] = "no" \/ ToNum(hi)[1] = "no" THEN Err(m, "bad argument to unpack") ELSE Unspec(m, "unpack with string bounds"))
                    ELSE IF ~IsIntV(lo) \/ ~IsIntV(hi) THEN Unspec(m, "unpack with non-integer bounds")
                    ELSE LET i == IntOf(lo) IN LET j == IntOf(hi) IN
-                        IF j - i >= 200 THEN Unspec(m, "unpack: too many results")
+                        IF i < -1000000 \/ i > 1000000 \/ j < -1000000 \/ j > 1000000 THEN Unspec(m, "unpack: huge bounds")
+                        ELSE IF j - i >= 200 THEN Unspec(m, "unpack: too many results")
                         ELSE RetV(m, [x \in 1..(IF j < i THEN 0 ELSE j - i + 1) |-> RawGetT(t, NumI(i + x - 1))])
     [] name = "assert" ->
          IF m.cfg.assert = "identity" THEN RetV(m, args)
@@ -456,7 +466,7 @@ CallBi(P, m, name, args) ==
               ELSE IF c # 0 THEN (IF m.loaded[c].done THEN Ret1(m, m.loaded[c].v) ELSE Err(m, "require: cycle through " \o a1.s))
               ELSE LET m1 == [m EXCEPT !.loaded = Append(@, [s |-> a1.s, v |-> Nil, nret |-> 0, done |-> FALSE])] IN
                    LET m2 == PushK(m1, Frame("reqret", 0, Len(m1.loaded), <<>>, m.env)) IN
-                   LET m3 == NewScopeIn(m2, 1, TRUE, <<>>) IN
+                   LET m3 == NewScopeIn(m2, 1, <<>>) IN
                    EnterBlock(P, m3, P.req[r].root, m3.env)
     [] OTHER -> Err(m, "unknown builtin " \o name)
 
@@ -469,8 +479,8 @@ Call(P, m, f, args) ==
     LET np == Len(ps) IN
     LET extra == IF fnode.c = 1 /\ Len(args) > np THEN SubSeq(args, np + 1, Len(args)) ELSE <<>> IN
     LET m1 == PushK(m, Frame("callret", 0, 0, <<>>, m.env)) IN
-    LET m2 == NewScopeIn(m1, c.env, TRUE, extra) IN
-    EnterBlock(P, DeclareAll(m2, ps, args, 1), fnode.b, m2.env)
+    LET m2 == NewScopeIn(m1, c.env, extra) IN
+    EnterBlock(P, DeclareAll(m2, ps, args, 1), fnode.b, m.env)
   ELSE IF f.t = "bi" THEN CallBi(P, m, f.s, args)
   ELSE LET h == Meta(m, f, "__call") IN
        IF h.t = "nil" THEN Err(m, "attempt to call a " \o TypeName(f) \o " value")
@@ -504,7 +514,7 @@ SetIndex(P, m, o, k, v, depth) ==
     LET h == Meta(m, o, "__newindex") IN
     IF raw.t # "nil" \/ h.t = "nil"
     THEN IF k.t = "nil" \/ IsNaNV(k) THEN Err(m, "table index is nil or NaN")
-         ELSE Done([m EXCEPT !.heap[o.hi] = RawSetT(@, k, v)])
+         ELSE Done([m EXCEPT !.heap[o.hi] = RawSetH(m, o.hi, k, v)])
     ELSE IF IsFunc(h) THEN CallMetaWith(P, m, "drop", h, <<o, k, v>>)
     ELSE SetIndex(P, m, h, k, v, depth + 1)
   ELSE Err(m, "attempt to index a " \o TypeName(o) \o " value")
@@ -622,3 +632,259 @@ Eval(P, m, n) ==
     [] nd.k = "ifexp" -> FrameE(m, "ifeC", n, 0, <<>>, nd.a)
     [] nd.k = "interp" -> InterpNext(P, m, n, 1, "")
     [] OTHER -> Err(m, "eval: unknown node kind " \o nd.k)
+
+\* ================================================================ assignment helpers
+\* targets are evaluated left to right into acc = <<obj1, key1, obj2, key2, ...>> (<<Nil, Nil>> for a variable)
+RECURSIVE AsgNext(_, _, _, _, _)
+AsgNext(P, m, n, i, acc) ==
+  LET ts == Node(P, n).l IN
+  IF i > Len(ts) THEN StartList(P, PushK(m, Frame("asgV", n, 0, acc, m.env)), n, 2)
+  ELSE LET t == Node(P, ts[i]) IN
+       IF t.k = "var" THEN AsgNext(P, m, n, i + 1, acc \o <<Nil, Nil>>)
+       ELSE IF t.k \in {"index", "field"} THEN FrameE(m, "asgO", n, i, acc, t.a)
+       ELSE Err(m, "assignment to a non-lvalue")
+\* slot of target i: a store cell (loc # 0) or a table/key pair (a global variable is _G[name])
+Slot(P, m, n, acc, i) ==
+  LET t == Node(P, Node(P, n).l[i]) IN
+  IF t.k = "var" THEN LET l == LookupLoc(m.envs, m.env, t.s) IN
+                      IF l # 0 THEN [loc |-> l, o |-> Nil, k |-> Nil] ELSE [loc |-> 0, o |-> Tab(GlobId), k |-> Str(t.s)]
+  ELSE [loc |-> 0, o |-> acc[2 * i - 1], k |-> NormKey(acc[2 * i])]
+TargetStale(P, m, n, acc, i) ==
+  LET t == Node(P, Node(P, n).l[i]) IN
+  /\ t.k \in {"index", "field"}
+  /\ \/ LocalStale(P, m, t.a, acc[2 * i - 1])
+     \/ t.k = "index" /\ LocalStale(P, m, t.b, acc[2 * i])
+RECURSIVE AssignAll(_, _, _, _)
+AssignAll(m, slots, vals, i) ==
+  IF i > Len(slots) THEN m
+  ELSE LET s == slots[i] IN LET v == Nth(vals, i) IN
+       AssignAll(IF s.loc # 0 THEN [m EXCEPT !.store[s.loc] = v] ELSE [m EXCEPT !.heap[s.o.hi] = RawSetH(m, s.o.hi, s.k, v)], slots, vals, i + 1)
+MultiAssign(P, m, n, acc, vals) ==
+  LET nt == Len(Node(P, n).l) IN
+  LET slots == [i \in 1..nt |-> Slot(P, m, n, acc, i)] IN
+  IF \E i \in 1..nt : TargetStale(P, m, n, acc, i) THEN Unspec(m, "local used in an assignment target was re-assigned while later operands were evaluated")
+  ELSE IF \E i, j \in 1..nt : i < j /\ slots[i] = slots[j] THEN Unspec(m, "multiple assignment to the same variable or table slot (order unspecified)")
+  ELSE IF \E i \in 1..nt : slots[i].loc = 0 /\ slots[i].o.t = "tab" /\ RawGet(m, slots[i].o.hi, slots[i].k).t = "nil"
+                           /\ Meta(m, slots[i].o, "__newindex").t # "nil"
+       THEN Unspec(m, "multiple assignment involving __newindex (order unspecified)")
+  ELSE IF \E i \in 1..nt : slots[i].loc = 0 /\ slots[i].o.t # "tab" THEN Err(m, "attempt to index a non-table value in an assignment")
+  ELSE IF \E i \in 1..nt : slots[i].loc = 0 /\ (slots[i].k.t = "nil" \/ IsNaNV(slots[i].k)) THEN Err(m, "table index is nil or NaN")
+  ELSE Done(AssignAll(m, slots, vals, 1))
+
+\* ================================================================ loops
+\* numeric for: f.vs = <<current, stop, step>> (doubles as values); test and enter the body, or leave
+ForIter(P, m, f) ==
+  LET i == D(f.vs[1]) IN LET stop == D(f.vs[2]) IN LET step == D(f.vs[3]) IN
+  LET m0 == [m EXCEPT !.env = f.env] IN
+  IF (IF FLt(Zero, step) THEN FLe(i, stop) ELSE FLe(stop, i))
+  THEN LET m1 == PushK(m0, [f EXCEPT !.vs[1] = NumD(FAdd(i, step))]) IN
+       LET m2 == Declare(m1, Node(P, f.n).s, NumD(i)) IN
+       EnterBlock(P, m2, Node(P, f.n).b, f.env)
+  ELSE Done(m0)
+\* generic for: f.vs = <<f, s, control>>; call the iterator
+GforCall(P, m, f) ==
+  LET it == f.vs[1] IN
+  LET m1 == PushK([m EXCEPT !.env = f.env], [f EXCEPT !.k = "gforR"]) IN
+  IF IsFunc(it) THEN Call(P, m1, it, <<f.vs[2], f.vs[3]>>)
+  ELSE IF it.t = "tab" THEN
+       IF Meta(m, it, "__iter").t # "nil" THEN Unspec(m, "generic for: __iter is Luau-only")
+       ELSE IF Meta(m, it, "__call").t = "nil" THEN Unspec(m, "generic for over a table (Luau iterates it, Lua 5.1 errors)")
+       ELSE Call(P, m1, it, <<f.vs[2], f.vs[3]>>)
+  ELSE Err(m, "attempt to call a " \o TypeName(it) \o " value (for iterator)")
+StartRepeat(P, m, n) == EnterBlock(P, PushK(m, Frame("rptB", n, 0, <<>>, m.env)), Node(P, n).a, -1)
+LoopFrames == {"whB", "rptB", "forL", "gforL"}
+CallFrames == {"callret", "reqret"}
+RECURSIVE FindFrame(_, _, _, _)
+FindFrame(kont, i, kinds, barrier) ==    \* topmost frame of a kind in `kinds` above any frame in `barrier`; 0 if none
+  IF i = 0 THEN 0 ELSE IF kont[i].k \in kinds THEN i ELSE IF kont[i].k \in barrier THEN 0 ELSE FindFrame(kont, i - 1, kinds, barrier)
+
+\* ================================================================ Exec: ctl = <<"X", node>>
+Exec(P, m, n) ==
+  LET nd == Node(P, n) IN
+  CASE nd.k = "block" -> ExecBlock(P, m, n)
+    [] nd.k = "do"    -> ExecBlock(P, m, nd.a)
+    [] nd.k = "local"   -> IF nd.l = <<>> THEN Done(DeclareAll(m, nd.ns, <<>>, 1))
+                           ELSE StartList(P, PushK(m, Frame("local", n, 0, <<>>, m.env)), n, 1)
+    [] nd.k = "localfn" -> LET m1 == Declare(m, nd.s, Nil) IN
+                           LET m2 == MkClosure(m1, nd.a, FALSE) IN
+                           Done([m2 EXCEPT !.store[Len(m2.store)] = Fn(Len(m2.clos))])
+    [] nd.k = "assign"  -> AsgNext(P, m, n, 1, <<>>)
+    [] nd.k = "compound" ->
+         LET t == Node(P, nd.a) IN
+         IF t.k = "var" THEN
+           LET l == LookupLoc(m.envs, m.env, t.s) IN
+           IF l # 0 THEN FrameE(m, "cmpR", n, 0, <<Nil, Nil, m.store[l]>>, nd.b)
+           ELSE GetIndex(P, PushK(m, Frame("cmpC", n, 0, <<Tab(GlobId), Str(t.s)>>, m.env)), Tab(GlobId), Str(t.s), 0)
+         ELSE IF t.k \in {"index", "field"} THEN FrameE(m, "cmpO", n, 0, <<>>, t.a)
+         ELSE Err(m, "compound assignment to a non-lvalue")
+    [] nd.k = "callstmt" -> FrameE(m, "drop", n, 0, <<>>, nd.a)
+    [] nd.k = "funcstmt" ->
+         IF Len(nd.ns) = 0 THEN Err(m, "funcstmt without a name")
+         ELSE IF Len(nd.ns) = 1 /\ nd.s = "" THEN SetVar(P, MkClosure(m, nd.a, FALSE), nd.ns[1], Fn(Len(m.clos) + 1))
+         ELSE LET l == LookupLoc(m.envs, m.env, nd.ns[1]) IN
+              LET m1 == PushK(m, Frame("fsP", n, 1, <<>>, m.env)) IN
+              IF l # 0 THEN Ret1(m1, m.store[l]) ELSE GlobalGet(P, m1, nd.ns[1])
+    [] nd.k = "if"      -> IF Len(nd.l) < 2 THEN Err(m, "malformed if") ELSE FrameE(m, "ifC", n, 1, <<>>, nd.l[1])
+    [] nd.k = "while"   -> FrameE(m, "whC", n, 0, <<>>, nd.a)
+    [] nd.k = "repeat"  -> StartRepeat(P, m, n)
+    [] nd.k = "numfor"  -> StartList(P, PushK(m, Frame("forI", n, 0, <<>>, m.env)), n, 1)
+    [] nd.k = "genfor"  -> StartList(P, PushK(m, Frame("gforI", n, 0, <<>>, m.env)), n, 1)
+    [] nd.k = "ret"     -> StartList(P, PushK(m, Frame("ret", n, 0, <<>>, m.env)), n, 1)
+    [] nd.k = "break"   -> Go(m, "B", 0, <<>>)
+    [] nd.k = "continue" -> Go(m, "C", 0, <<>>)
+    [] nd.k = "typedecl" -> Done(m)
+    [] OTHER -> Err(m, "exec: unknown node kind " \o nd.k)
+
+\* ================================================================ ResumeV: a value list reaches the (popped) top frame f
+ResumeV(P, m, f, vs) ==
+  LET v == First(vs) IN
+  CASE f.k = "list" ->
+         LET es == Exprs(P, f.n, f.env) IN
+         IF f.i < Len(es) THEN Go(PushK(m, [f EXCEPT !.i = f.i + 1, !.vs = Append(f.vs, v)]), "E", es[f.i + 1], <<>>)
+         ELSE RetV(m, f.vs \o vs)
+    [] f.k = "one"  -> Ret1(m, v)
+    [] f.k = "tobool" -> Ret1(m, Bool(Truthy(v)))
+    [] f.k = "not"  -> Ret1(m, Bool(~Truthy(v)))
+    [] f.k = "drop" -> Done(m)
+    [] f.k = "tostr" -> IF v.t = "str" THEN Ret1(m, v) ELSE Err(m, "'__tostring' must return a string")
+    [] f.k = "tostrv" -> ToStrStep(P, m, v)
+    [] f.k = "interp" -> InterpNext(P, m, f.n, f.i + 1, f.vs[1].s \o v.s)
+    [] f.k = "binL" -> FrameE(m, "binR", f.n, 0, <<v>>, Node(P, f.n).b)
+    [] f.k = "binR" -> LET nd == Node(P, f.n) IN
+                       IF nd.s # ".." /\ LocalStale(P, m, nd.a, f.vs[1])
+                       THEN Unspec(m, "local operand re-assigned while the right operand was evaluated")
+                       ELSE BinOp(P, m, nd.s, f.vs[1], v)
+    [] f.k = "and"  -> IF Truthy(v) THEN EvalOne(P, m, Node(P, f.n).b) ELSE Ret1(m, v)
+    [] f.k = "or"   -> IF Truthy(v) THEN Ret1(m, v) ELSE EvalOne(P, m, Node(P, f.n).b)
+    [] f.k = "ifeC" -> IF Truthy(v) THEN EvalOne(P, m, Node(P, f.n).b) ELSE EvalOne(P, m, Node(P, f.n).c)
+    [] f.k = "neg"  -> LET x == ToNum(v) IN
+                       IF x[1] = "ok" THEN Ret1(m, NumD(FNeg(<<x[2], x[3]>>)))
+                       ELSE IF x[1] = "unspec" THEN Unspec(m, "string->number coercion")
+                       ELSE LET h == Meta(m, v, "__unm") IN
+                            IF h.t = "nil" THEN Err(m, "attempt to perform arithmetic on a " \o TypeName(v) \o " value")
+                            ELSE CallMetaWith(P, m, "one", h, <<v, v>>)
+    [] f.k = "len"  -> IF v.t = "str" THEN Ret1(m, NumI(Len(v.s)))
+                       ELSE IF v.t = "tab" THEN
+                            IF Meta(m, v, "__len").t # "nil" THEN Unspec(m, "__len on a table (ignored by Lua 5.1, honoured by Luau)")
+                            ELSE IF v.hi <= DebugId THEN Unspec(m, "# of the global/library table")
+                            ELSE LET b == Border(m.heap[v.hi]) IN
+                                 IF b < 0 THEN Unspec(m, "# of a table with holes") ELSE Ret1(m, NumI(b))
+                       ELSE Err(m, "attempt to get length of a " \o TypeName(v) \o " value")
+    [] f.k = "callF"  -> StartList(P, PushK(m, Frame("callA", f.n, 0, <<v>>, f.env)), f.n, 1)
+    [] f.k = "callA"  -> Call(P, m, f.vs[1], Tail(f.vs) \o vs)
+    [] f.k = "mcallO" -> GetIndex(P, PushK(m, Frame("mcallF", f.n, 0, <<v>>, f.env)), v, Str(Node(P, f.n).s), 0)
+    [] f.k = "mcallF" -> StartList(P, PushK(m, Frame("callA", f.n, 0, <<v, f.vs[1]>>, f.env)), f.n, 1)
+    [] f.k = "idxO" -> FrameE(m, "idxK", f.n, 0, <<v>>, Node(P, f.n).b)
+    [] f.k = "idxK" -> IF LocalStale(P, m, Node(P, f.n).a, f.vs[1])
+                       THEN Unspec(m, "local table operand re-assigned while the key was evaluated")
+                       ELSE GetIndex(P, m, f.vs[1], v, 0)
+    [] f.k = "fldO" -> GetIndex(P, m, v, Str(Node(P, f.n).s), 0)
+    [] f.k = "tabK" -> IF v.t = "nil" \/ IsNaNV(v) THEN Err(m, "table index is nil or NaN")
+                       ELSE FrameE(m, "tab", f.n, f.i, Append(f.vs, v), Node(P, Node(P, f.n).l[f.i]).b)
+    [] f.k = "tab"  ->
+         LET nd == Node(P, f.n) IN LET t == f.vs[1] IN LET pos == IntOf(f.vs[2]) IN LET key == f.vs[3] IN
+         LET last == f.i = Len(nd.l) IN
+         IF key.t # "nil" THEN
+           IF RawGetT(m.heap[t.hi], key).t # "nil" THEN Unspec(m, "duplicate key in a table constructor (store order is implementation-defined)")
+           ELSE LET m1 == [m EXCEPT !.heap[t.hi] = RawSetT(@, key, v)] IN
+                IF last THEN Ret1(m1, t) ELSE TabEntry(P, m1, f.n, f.i + 1, t, pos)
+         ELSE LET vals == IF last THEN vs ELSE <<v>> IN
+              LET r == SetPositional(m.heap[t.hi], pos, vals, 1) IN
+              IF ~r[1] THEN Unspec(m, "duplicate key in a table constructor (store order is implementation-defined)")
+              ELSE LET m1 == [m EXCEPT !.heap[t.hi] = r[2]] IN
+                   IF last THEN Ret1(m1, t) ELSE TabEntry(P, m1, f.n, f.i + 1, t, pos + 1)
+    [] f.k = "local" -> Done(DeclareAll(m, Node(P, f.n).ns, vs, 1))
+    [] f.k = "asgO" -> LET t == Node(P, Node(P, f.n).l[f.i]) IN
+                       IF t.k = "field" THEN AsgNext(P, m, f.n, f.i + 1, f.vs \o <<v, Str(t.s)>>)
+                       ELSE FrameE(m, "asgK", f.n, f.i, Append(f.vs, v), t.b)
+    [] f.k = "asgK" -> AsgNext(P, m, f.n, f.i + 1, Append(f.vs, v))
+    [] f.k = "asgV" -> LET ts == Node(P, f.n).l IN
+                       IF Len(ts) # 1 THEN MultiAssign(P, m, f.n, f.vs, vs)
+                       ELSE IF Node(P, ts[1]).k = "var" THEN SetVar(P, m, Node(P, ts[1]).s, v)
+                       ELSE IF TargetStale(P, m, f.n, f.vs, 1) THEN Unspec(m, "local used in an assignment target was re-assigned while the value was evaluated")
+                       ELSE SetIndex(P, m, f.vs[1], f.vs[2], v, 0)
+    [] f.k = "cmpO" -> LET t == Node(P, Node(P, f.n).a) IN
+                       IF t.k = "field" THEN GetIndex(P, PushK(m, Frame("cmpC", f.n, 0, <<v, Str(t.s)>>, f.env)), v, Str(t.s), 0)
+                       ELSE FrameE(m, "cmpK", f.n, 0, <<v>>, t.b)
+    [] f.k = "cmpK" -> GetIndex(P, PushK(m, Frame("cmpC", f.n, 0, <<f.vs[1], v>>, f.env)), f.vs[1], v, 0)
+    [] f.k = "cmpC" -> FrameE(m, "cmpR", f.n, 0, <<f.vs[1], f.vs[2], v>>, Node(P, f.n).b)
+    [] f.k = "cmpR" -> LET nd == Node(P, f.n) IN LET t == Node(P, nd.a) IN
+                       IF \/ t.k = "var" /\ f.vs[1].t = "nil" /\ LocalStale(P, m, nd.a, f.vs[3])
+                          \/ t.k \in {"index", "field"} /\ LocalStale(P, m, t.a, f.vs[1])
+                          \/ t.k = "index" /\ LocalStale(P, m, t.b, f.vs[2])
+                       THEN Unspec(m, "local used by a compound assignment was re-assigned while the value was evaluated")
+                       ELSE BinOp(P, PushK(m, Frame("cmpS", f.n, 0, <<f.vs[1], f.vs[2]>>, f.env)), nd.s, f.vs[3], v)
+    [] f.k = "cmpS" -> IF f.vs[1].t = "nil" THEN SetVar(P, m, Node(P, Node(P, f.n).a).s, v)
+                       ELSE SetIndex(P, m, f.vs[1], f.vs[2], v, 0)
+    [] f.k = "fsP"  -> LET nd == Node(P, f.n) IN
+                       LET lastObj == IF nd.s # "" THEN Len(nd.ns) ELSE Len(nd.ns) - 1 IN
+                       IF f.i < lastObj THEN GetIndex(P, PushK(m, [f EXCEPT !.i = f.i + 1]), v, Str(nd.ns[f.i + 1]), 0)
+                       ELSE SetIndex(P, MkClosure(m, nd.a, nd.s # ""), v, Str(IF nd.s # "" THEN nd.s ELSE nd.ns[Len(nd.ns)]), Fn(Len(m.clos) + 1), 0)
+    [] f.k = "ifC"  -> LET nd == Node(P, f.n) IN
+                       IF Truthy(v) THEN ExecBlock(P, m, nd.l[f.i + 1])
+                       ELSE IF f.i + 3 <= Len(nd.l) THEN FrameE(m, "ifC", f.n, f.i + 2, <<>>, nd.l[f.i + 2])
+                       ELSE IF nd.c # 0 THEN ExecBlock(P, m, nd.c) ELSE Done(m)
+    [] f.k = "whC"  -> IF Truthy(v) THEN ExecBlock(P, PushK(m, Frame("whB", f.n, 0, <<>>, m.env)), Node(P, f.n).b) ELSE Done(m)
+    [] f.k = "rptC" -> IF Truthy(v) THEN Done([m EXCEPT !.env = f.env]) ELSE StartRepeat(P, [m EXCEPT !.env = f.env], f.n)
+    [] f.k = "forI" ->
+         LET nd == Node(P, f.n) IN
+         LET a == Nth(vs, 1) IN LET b == Nth(vs, 2) IN LET s == IF Len(nd.l) >= 3 THEN Nth(vs, 3) ELSE NumI(1) IN
+         IF a.t # "num" \/ b.t # "num" \/ s.t # "num" THEN
+              IF ToNum(a)[1] = "no" \/ ToNum(b)[1] = "no" \/ ToNum(s)[1] = "no" THEN Err(m, "'for' initial value, limit and step must be numbers")
+              ELSE Unspec(m, "numeric for with string bounds")
+         ELSE IF FIsNaN(D(a)) \/ FIsNaN(D(b)) \/ FIsNaN(D(s)) THEN Unspec(m, "numeric for with NaN")
+         ELSE IF FEq(D(s), Zero) THEN Unspec(m, "numeric for with step 0 (Luau errors, Lua 5.1 loops forever)")
+         ELSE IF FAdd(FSub(D(a), D(s)), D(s)) # D(a) THEN Unspec(m, "numeric for: (init - step) + step differs from init (5.1 pre-subtracts the step)")
+         ELSE ForIter(P, m, Frame("forL", f.n, 0, <<a, b, s>>, f.env))
+    [] f.k = "gforI" -> GforCall(P, m, Frame("gforL", f.n, 0, <<Nth(vs, 1), Nth(vs, 2), Nth(vs, 3)>>, f.env))
+    [] f.k = "gforR" ->
+         IF v.t = "nil" THEN Done([m EXCEPT !.env = f.env])
+         ELSE LET m1 == PushK(m, [f EXCEPT !.k = "gforL", !.vs[3] = v]) IN
+              EnterBlock(P, DeclareAll(m1, Node(P, f.n).ns, vs, 1), Node(P, f.n).b, f.env)
+    [] f.k = "ret"  -> Go(m, "R", 0, vs)
+    [] OTHER -> Err(m, "resume V: unexpected frame " \o f.k)
+
+\* ================================================================ ResumeN: a statement completed normally; f is the (popped) top frame
+FinishReq(m, f, vs) ==
+  RetV([m EXCEPT !.env = f.env, !.loaded[f.i] = [@ EXCEPT !.v = First(vs), !.nret = Len(vs), !.done = TRUE]], <<First(vs)>>)
+ResumeN(P, m, f) ==
+  CASE f.k = "blk" ->
+         LET l == Node(P, f.n).l IN
+         IF f.i < Len(l) THEN Go(PushK(m, [f EXCEPT !.i = f.i + 1, !.vs = <<EnvMark(m.env)>>]), "X", l[f.i + 1], <<>>)
+         ELSE Done(IF f.env = -1 THEN m ELSE [m EXCEPT !.env = f.env])
+    [] f.k = "whB" -> FrameE([m EXCEPT !.env = f.env], "whC", f.n, 0, <<>>, Node(P, f.n).a)
+    [] f.k = "rptB" -> Go(PushK(m, Frame("rptC", f.n, 0, <<>>, f.env)), "E", Node(P, f.n).b, <<>>)
+    [] f.k = "forL" -> ForIter(P, m, f)
+    [] f.k = "gforL" -> GforCall(P, m, f)
+    [] f.k = "callret" -> RetV([m EXCEPT !.env = f.env], <<>>)
+    [] f.k = "reqret" -> FinishReq(m, f, <<>>)
+    [] OTHER -> Err(m, "resume N: unexpected frame " \o f.k)
+
+\* ================================================================ Step / Run
+Finish(m, vs) == [m EXCEPT !.st = "done", !.ret = RenderAll(m, vs), !.kont = <<>>]
+Step(P, m0) ==
+  LET c == m0.ctl IN
+  LET m == [m0 EXCEPT !.steps = @ + 1] IN
+  LET nk == Len(m.kont) IN
+  CASE c.m = "E" -> Eval(P, m, c.n)
+    [] c.m = "X" -> Exec(P, m, c.n)
+    [] c.m = "V" -> IF nk = 0 THEN Err(m, "value delivered to an empty continuation") ELSE ResumeV(P, PopK(m), m.kont[nk], c.vs)
+    [] c.m = "N" -> IF nk = 0 THEN Finish(m, <<>>) ELSE ResumeN(P, PopK(m), m.kont[nk])
+    [] c.m = "R" -> LET j == FindFrame(m.kont, nk, CallFrames, {}) IN
+                    IF j = 0 THEN (IF AnySpecial(m, c.vs) THEN Unspec(m, "global/library table returned by the main chunk") ELSE Finish(m, c.vs))
+                    ELSE LET f == m.kont[j] IN LET m1 == [m EXCEPT !.kont = SubSeq(m.kont, 1, j - 1)] IN
+                         IF f.k = "reqret" THEN FinishReq(m1, f, c.vs) ELSE RetV([m1 EXCEPT !.env = f.env], c.vs)
+    [] c.m = "B" -> LET j == FindFrame(m.kont, nk, LoopFrames, CallFrames) IN
+                    IF j = 0 THEN Err(m, "break outside a loop")
+                    ELSE Done([m EXCEPT !.kont = SubSeq(m.kont, 1, j - 1), !.env = m.kont[j].env])
+    [] c.m = "C" -> LET j == FindFrame(m.kont, nk, LoopFrames, CallFrames) IN
+                    IF j = 0 THEN Err(m, "continue outside a loop")
+                    ELSE LET f == m.kont[j] IN
+                         Done([m EXCEPT !.kont = SubSeq(m.kont, 1, j),
+                                        !.env = IF f.k = "rptB" THEN (IF j < nk THEN m.kont[j + 1].vs[1].hi ELSE m.env) ELSE f.env])
+    [] OTHER -> Err(m, "unknown control mode")
+
+RECURSIVE Run(_, _, _)
+Run(P, m, fuel) == IF m.st # "run" \/ fuel = 0 THEN m ELSE Run(P, Step(P, m), fuel - 1)
+Obs(m) == [st |-> m.st, log |-> m.log, ret |-> m.ret]
+=============================================================================
